@@ -188,15 +188,42 @@ def c14_asserts(ctx):
            {"failing": ["%s:%d %s" % (k[0], k[1], assert_text(v[0], v[1])) for k, v in fails.items()][:6]}, nontrivial=True)
 
 
-# beliefs about libc post-conditions that reach the assertion through an internal wrapper; one reason per entry
-BELIEF_EXCEPTIONS = {
-    ("setup_input", "written + (size_t) r <= size"): "write(2) never reports more bytes than it was asked to write",
-}
+_wrapper_cache = {}
+
+
+def libc_wrappers(prog):
+    """internal functions that merely hand on the result of one libc call (value or -errno): pipe_write, pipe_read, ...
+    An assertion about their result is, like one about the libc call itself, a statement about the OS."""
+    key = id(prog)
+    if key in _wrapper_cache:
+        return _wrapper_cache[key]
+    out = set()
+    for F in prog.funcs_all:
+        ext = [x for x in F.walk() if x["k"] == "CallExpr" and x.get("callee") and x["callee"] not in prog.funcs
+               and x["callee"] not in ("__assert_fail", "__errno_location")]
+        internal = [x for x in F.walk() if x["k"] == "CallExpr" and x.get("callee") in prog.funcs]
+        if len(ext) != 1 or internal:
+            continue
+        var = None
+        par = F.nodes.get(F.parent.get(ext[0]["id"]))
+        while par is not None and par["k"] in ("ImplicitCastExpr", "CStyleCastExpr", "ParenExpr"):
+            par = F.nodes.get(F.parent.get(par["id"]))
+        if par is not None and par["k"] == "VarDecl":
+            var = par["name"]
+        elif par is not None and par["k"] == "BinaryOperator" and par["op"] == "=":
+            var = expr_str(strip(par["c"][0]))
+        rets = [x for x in F.walk() if x["k"] == "ReturnStmt" and x.get("c")]
+        if var and rets and all(any(y["k"] == "DeclRefExpr" and y["name"] == var for y in walk_nodes(x)) or "val" in strip(x["c"][0])
+                                or any(y["k"] == "CallExpr" and y.get("callee") == "__errno_location" for y in walk_nodes(x)) for x in rets):
+            out.add(F.name)
+    _wrapper_cache[key] = out
+    return out
 
 
 def env_assert(prog, fn, node):
     """is the failed assertion a statement about the result of a libc call (environment), not about library state?
-    True if a variable of the asserted expression is defined in this function from the result of an external call."""
+    True if a variable of the asserted expression is defined in this function from the result of an external call or of an
+    internal function that merely wraps one."""
     cond = None
     for a in fn.ancestors(node):
         if a["k"] == "ConditionalOperator":
@@ -204,8 +231,7 @@ def env_assert(prog, fn, node):
             break
     if cond is None:
         return False
-    if (fn.name, assert_text(fn, node)) in BELIEF_EXCEPTIONS:
-        return True
+    wrappers = libc_wrappers(prog)
     names = {x["did"] for x in walk_nodes(cond) if x["k"] == "DeclRefExpr" and x.get("dk") in ("local",)}
     for d in fn.nodes.values():
         tgt = None
@@ -218,7 +244,7 @@ def env_assert(prog, fn, node):
                 tgt, rhs = l["did"], d["c"][1]
         if tgt in names and rhs is not None:
             r = strip(rhs)
-            if r["k"] == "CallExpr" and r.get("callee") and r["callee"] not in prog.funcs:
+            if r["k"] == "CallExpr" and r.get("callee") and (r["callee"] not in prog.funcs or r["callee"] in wrappers):
                 return True
     return False
 
